@@ -217,6 +217,13 @@ func (tw *TumblingWindow) Add(data any) {
 		default:
 			close(tw.initChan)
 		}
+	} else if timeChar == types.EventTime && tw.currentSlot != nil && eventTime.Before(*tw.currentSlot.Start) &&
+		(tw.watermark == nil || !tw.watermark.IsEventTimeLate(eventTime)) {
+		// An accepted (not late) row of an interval before the current one: the current interval was
+		// derived from the first row to arrive, which need not be the earliest. The row is not behind
+		// the watermark, so no interval from its own onwards has fired yet: move the current interval
+		// back to the row's, or the row would stay in the buffer and never be reported.
+		tw.currentSlot = tw.createSlotFromStart(alignWindowStart(eventTime, tw.size))
 	}
 
 	row := types.Row{
